@@ -40,6 +40,12 @@ THEOREMS = [
     "referrer_lookup_exact",
     "spec_closure_exact",
     "spec_agrees_on_success",
+    "restrict_inside_cascade_refuses",
+    "chain_delete_refused_or_exact",
+    "chain_delete_item_refused_or_exact",
+    "chain_targets_exist",
+    "chain_targets_exist_step",
+    "chain_spec_agrees",
 ]
 
 RULE = ("scripted families (every id of the hostile pool — quotes, backslashes, backslash-n, filter keywords, "
@@ -65,6 +71,12 @@ RULE = ("scripted families (every id of the hostile pool — quotes, backslashes
         "the canonicalised boltz.Traverse dump, the surviving ids, the stored fk values, GetRelatedEntitiesIdList of "
         "every back-reference field (things, minions, mentees1, mentees2), each child store's view of every entity and "
         "the error enum are compared. "
+        "Round 9: a second family over a CHAIN of three stores owners <- items <- notes with an fk constraint on each "
+        "link, all 16 combinations of restrict / cascade and nullable / not (kind `t`): scripted (every pool id as owner "
+        "/ protected item / note, the same id in all three stores, references moved away or cleared before the delete) "
+        "and random histories of 6-25 transactions (create / update / delete at every level, ids from the hostile pool, "
+        "in half of them the same names at every level; a third forced to cascade-over-restrict); dump, ids, stored "
+        "refs and error enum compared after every transaction. "
         "non-trivial = the history contains a refused delete (refexists), a cascading delete that removed >= 2 "
         "entities, or a rejected write (notfound / null-not-allowed); distinct = (variant, sequence of results and "
         "coarse digests)")
@@ -118,6 +130,13 @@ def pretty_op(op):
         if f[0] in ("xa", "xb"):
             return {("deleteA" if f[0] == "xa" else "deleteB"): _unhex(f[1]),
                     "while_an_entity_constraint_refuses_the_delete_of_A_entity": _unhex(f[2])}
+        if f[0] in ("n0", "n1", "n2", "m1", "m2", "r0", "r1", "r2"):
+            store = ("owners", "items", "notes")[int(f[0][1])]
+            verb = {"n": "create", "m": "update", "r": "delete"}[f[0][0]]
+            d = {verb + "_in_" + store: _unhex(f[1])}
+            if len(f) > 2:
+                d["ref"] = _fv(f[2])
+            return d
         if f[0] == "da":
             return {"deleteA": _unhex(f[1])}
         if f[0] == "db":
@@ -129,12 +148,19 @@ def pretty_op(op):
 
 def _verbose(case):
     """h -> v, k -> w (k / w: the history runs on ONE reused MutateContext)"""
-    return {"h": "v", "k": "w"}.get(case[:1], case[:1]) + case[1:]
+    return {"h": "v", "k": "w", "t": "T"}.get(case[:1], case[:1]) + case[1:]
 
 
 def pretty_case(case):
     f = case.split(" ")
     v = int(f[1]) if len(f) > 1 and f[1].isdigit() else -1
+    if f[0] in ("t", "T"):
+        mode = lambda c: "CascadeDelete" if c else "CascadeNone (restrict)"
+        return {"schema": {"stores": "owners <- items.ref <- notes.ref (three stores, an fk constraint on each link)",
+                           "items.ref -> owners": mode(v & 1), "items.ref nullable": bool(v & 2),
+                           "notes.ref -> items": mode(v & 4), "notes.ref nullable": bool(v & 8)},
+                "mutate_context": "a fresh MutateContext per transaction",
+                "transactions": [[pretty_op(o) for o in tx.split(",")] for tx in f[2:] if tx]}
     return {"schema": {"dep_cascade": bool(v & 1), "dep_nullable": bool(v & 2), "dep_registered_first": bool(v & 4),
                        "C_declares_mentor_fk_index": bool(v & 8), "C2_declares_mentor_fk_index": bool(v & 16),
                        "C_declares_guard_fk_constraint": bool(v & 32), "C2_declares_guard_fk_constraint": bool(v & 64),
@@ -190,6 +216,8 @@ def situation_stats(case, impl, stats):
         variant = int(f[1])
     except (IndexError, ValueError):
         return
+    if f[0] in ("t", "T"):
+        return tier_stats(f, variant, impl, stats)
     A, B = {}, set()
 
     def bump(k):
@@ -316,6 +344,49 @@ def situation_stats(case, impl, stats):
                 B.discard(g[1])
         if any(e["owner"] and e["owner"] == x for x, e in A.items()) or any(e["dep"] and e["dep"] == x for x, e in A.items()):
             bump("state with an A entity referring to the B entity of the same id")
+
+
+def tier_stats(f, variant, impl, stats):
+    """the three-store chain: which delete situations the histories reached"""
+    T = [set(), {}, {}]
+
+    def bump(k):
+        stats[k] = stats.get(k, 0) + 1
+
+    bump("chain history")
+    for tx, tok in zip([t for t in f[2:] if t], (impl or "").split(" ")):
+        ops = tx.split(",")
+        res = tok.split("#")[0]
+        if len(ops) == 1 and ops[0][:2] == "r0":
+            o = ops[0].split(":")[1]
+            items = [i for i, r in T[1].items() if r == o and o not in ("~", "-")]
+            notes = [n for n, r in T[2].items() if r in items and r not in ("~", "-")]
+            if o in T[0] and items:
+                mode = ("cascade" if variant & 1 else "restrict") + " over " + ("cascade" if variant & 4 else "restrict")
+                bump("chain: delete of an owner with referring items, " + mode +
+                     (", a reached item referenced by a note" if notes else ", no note on a reached item") + " -> " +
+                     res.split(":")[-1])
+        if res != "ok":
+            continue
+        for op in ops:
+            g = op.split(":")
+            lvl = int(g[0][1])
+            if g[0][0] == "n":
+                if lvl == 0:
+                    T[0].add(g[1])
+                else:
+                    T[lvl][g[1]] = g[2]
+            elif g[0][0] == "m":
+                T[lvl][g[1]] = g[2]
+            else:
+                gone = [{g[1]} if lvl == 0 else set(), {g[1]} if lvl == 1 else set(), {g[1]} if lvl == 2 else set()]
+                gone[1] |= {i for i, r in T[1].items() if r in gone[0]}
+                gone[2] |= {n for n, r in T[2].items() if r in gone[1]}
+                T[0] -= gone[0]
+                for x in gone[1]:
+                    T[1].pop(x, None)
+                for x in gone[2]:
+                    T[2].pop(x, None)
 
 
 def describe(case, impl, model, spec):
